@@ -641,10 +641,93 @@ def gen_exit_drain(rng, facts):
     return c
 
 
+def gen_stop(rng, facts):
+    """like gen_exit_drain, but the drain is the real one: the case ends with the stop command (BackendWorker::_exit
+    on the backend, exit_drain in the model) instead of hand-made polls. Aimed at the states in which "is everything
+    empty?" is hard to answer: a drained node with a successor (oversize record, shrink, a burst that fills a node
+    exactly) on unbounded queues, full bounded queues with parked producers, threads that exited with records queued,
+    events still in the transit buffers (limits 1-4), timestamps younger than the grace period. Afterwards the
+    backend is used again (start again clause: the same worker keeps polling)."""
+    from be_common import Case
+    nt = rng.randint(1, 4)
+    soft = rng.choice([1, 2, 4]); hard = rng.choice([h for h in (2, 4, 8) if h >= soft])
+    dr = rng.choice([0, 1, 2, 2, 2]); capk = rng.choice([8, 8, 10])
+    grace = rng.choice([0, 0, 1000, 3000])
+    c = Case(dropping=dr, capk=capk, tinit=rng.choice([2, 4]), soft=soft, hard=hard, grace=grace, facts=facts)
+    cap = 1 << capk
+    alive = set(range(nt))
+    def burst(t):
+        # statements of 64 bytes: cap/64 of them fill a node exactly, one more goes to the next node
+        for _ in range(cap // 64 + rng.choice([-1, 0, 1, 2])): c.log(t, pad=19)
+    for _ in range(rng.randint(2, 12)):
+        r = rng.random(); t = rng.randrange(nt)
+        if r < 0.35: c.log(t, pad=rng.choice([0, 5, 19]))
+        elif r < 0.45 and dr == 2: c.log(t, pad=rng.choice([cap - 45, cap - 44, cap, 2 * cap + 7]))      # needs the next node(s)
+        elif r < 0.55 and dr == 2: c.shrink(t, rng.choice([64, 128, 256]))
+        elif r < 0.62: burst(t)
+        elif r < 0.72 and len(alive) > 1 and t in alive: c.exit(t); alive.discard(t)
+        elif r < 0.8: c.tick(rng.choice([1, 500, 1001, 5000]))
+        elif r < 0.85: c.tick(1); c.flush(t)
+        else:
+            inj = []
+            if rng.random() < 0.5:
+                inj.append((rng.choice([3, 4, 5, 8]), rng.choice([0, 1]), [('resume', rng.randrange(nt))]))
+            c.poll(inj)
+    # the last thing before the stop is often the interesting one
+    r = rng.random(); t = rng.randrange(nt)
+    if r < 0.25 and dr == 2: c.log(t, pad=rng.choice([cap, 2 * cap + 7]))
+    elif r < 0.45 and dr == 2: c.shrink(t, rng.choice([64, 128])); c.log(t, pad=rng.choice([0, 100]))
+    elif r < 0.6: burst(t)
+    elif r < 0.7: c.log(t)
+    if rng.random() < 0.4 and t in alive and len(alive) > 1: c.exit(t); alive.discard(t)
+    c.stop(0 if grace == 0 else rng.choice([grace // 3, grace, 5 * grace]))
+    c.ctx()
+    # the backend keeps working after a stop
+    for _ in range(rng.randint(0, 3)): c.log(rng.randrange(nt), pad=rng.choice([0, 19]))
+    for _ in range(3):
+        for t in range(nt): c.resume(t)
+        c.tick(20000)
+        for _ in range(8): c.poll()
+    c.ctx()
+    return c
+
+
+def stop_monitor(case, obs):
+    """the stop clause on the implementation's observations, independent of the Coq model: when the stop command
+    returns, every statement whose log call had returned "accepted" before it was issued has been written to every
+    sink that should get it, and every sink written to has been flushed (or asked to) after its last write; plus the
+    delivery monitor of C03 on the whole stream (exactly once, per-thread order, nothing that was not accepted)."""
+    import props.c03 as c03
+    from be_common import Track
+    tr = Track(case, obs)
+    if not tr.ok: return 'no observations'
+    sink_level = {k: l for k, (l, _) in enumerate(case.sinks)}
+    for sp, code in tr.stops:
+        if code != 1: return 'the stop command did not report completion (code %d)' % code
+        wpos = {}
+        for pos, k, i, lvl in tr.writes: wpos.setdefault((k, i), pos)
+        for i, d in tr.stmts.items():
+            if d['outcome'] != 'accepted' or d['ret'] is None or d['ret'] > sp: continue
+            for k in case.loggers[d['logger']][1]:
+                if d['level'] >= sink_level[k] and wpos.get((k, i), 1 << 60) > sp:
+                    return ('statement %d (thread %d%s): its log call had completed before the stop, but when the backend\'s exit drain returned it had not been written to sink %d'
+                            % (i, d['thread'], ', which had exited' if any(t == d['thread'] and p < sp for p, t in tr.exits) else '', k))
+        for k in sink_level:
+            lw = max([pos for pos, kk, i, lvl in tr.writes if kk == k and pos < sp] or [-1])
+            if lw < 0: continue
+            fl = [pos for pos, kk in tr.sflush if kk == k and lw < pos < sp] + [pos for pos, kind, n in tr.notes if kind == 5 and lw < pos < sp]
+            if not fl: return 'sink %d was written to but not flushed before the exit drain returned' % k
+    return c03.monitor(case, obs)
+
+
 def driver_phase(ck, tier):
     import props.c03 as c03
     from be_check import be_driver_phase
-    return be_driver_phase(ck, tier, gen_exit_drain, c03.monitor, 250, 5000, 'M-BE vs backend driver (exit + flush + drain)')
+    a = be_driver_phase(ck, tier, gen_exit_drain, c03.monitor, 250, 5000, 'M-BE vs backend driver (exit + flush + drain)')
+    b = be_driver_phase(ck, tier, gen_stop, stop_monitor, 600, 12000, 'M-BE exit_drain vs BackendWorker::_exit on the backend driver (stop command)')
+    if isinstance(a, dict) and isinstance(b, dict):
+        a = dict(a); a.update({'stop_' + k: v for k, v in b.items()})
+    return a
 
 
 def run(tier):
